@@ -222,6 +222,19 @@ def special_blocks(case, rng):
     return case
 
 
+def aligned_data_patch(case, rng):
+    """a code patch that carries aligned data ('jmp over / .align / .long / label'): the assembler turns the aligned
+    block into a data block, and the alignment request has to name that block - not the code block it replaced"""
+    code = [i for i, d in enumerate(case["text"]) if d["kind"] == "code"]
+    free = [i for i in code if not any(e["block"] == i for e in case["edits"])]
+    if not free:
+        return case
+    i = rng.choice(free)
+    case["edits"].append({"op": "insert", "block": i, "off": 0,
+                          "asm": "jmp .Lover\n.align %d\n.long %d\n.Lover:\nnop" % (rng.choice([2, 4, 8]), rng.randrange(1 << 16))})
+    return case
+
+
 def bss_case(rng):
     """a data section whose interval is only partly initialized: blocks in the uninitialized tail, a gap no block
     covers, alignment on the block behind the gap - and a request that changes the size of the initialized part"""
@@ -307,7 +320,10 @@ def run(ctx):
         ctx.count("corpus")
         check_case(ctx, c, pending)
     for _ in range(ctx.budget(500, 12000)):
-        check_case(ctx, special_blocks(add_encodings(emodify.gen_case(ctx.rng), ctx.rng), ctx.rng), pending)
+        case = special_blocks(add_encodings(emodify.gen_case(ctx.rng), ctx.rng), ctx.rng)
+        if ctx.rng.random() < 0.15:
+            case = aligned_data_patch(case, ctx.rng)
+        check_case(ctx, case, pending)
         if len(pending) >= 300:
             flush(ctx, pending)
     flush(ctx, pending)
